@@ -341,14 +341,18 @@ theorem Fr.broadcastGInv (c : Cfg) (s : St) (l : Nat) : Fr s (broadcastGInv c s 
 theorem Fr.saveBody (s : St) (r l : Nat) :
     Fr s (
       let (s, a) := readSlot s r (getL s r l).aFactor
-      let s := setL s r l { getL s r l with aFactor := a }
+      let s := Precond.setL s r l { getL s r l with aFactor := a }
       let (s, g) := readSlot s r (getL s r l).gFactor
-      setL s r l { getL s r l with gFactor := g }) := by
-  rdk (Rd.refl s) => s1 a h1 ha
-  rename_i s1'
+      Precond.setL s r l { getL s r l with gFactor := g }) := by
+  split
+  rename_i s1 a heq
+  obtain ⟨h1, ha⟩ := (Rd.refl s).read heq
+  extract_lets x1 s1'
   have e1 : Fr s s1' := h1.setL (by simp +zetaDelta [K, h1.getL, ha])
-  clear_value s1'
-  rdk (Rd.refl s1') => s2 g h2 hg
+  clear_value s1' x1
+  split
+  rename_i s2 g heq2
+  obtain ⟨h2, hg⟩ := (Rd.refl s1').read heq2
   exact e1.trans (h2.setL (by simp +zetaDelta [K, h2.getL, hg]))
 
 theorem Fr.saveState (c : Cfg) (s : St) (f : Bool) : Fr s (saveState c s f) := by
@@ -460,7 +464,8 @@ theorem plCopy_scalars (c : Cfg) (s1 : St) : (plCopy c s1).steps = s1.steps ∧ 
   unfold plCopy Precond.forRanks
   have h : ∀ (t : St) (r : Nat), ((layerIdxs c).foldl (fun t l => cp s1 t r l) t).steps = t.steps ∧
       ((layerIdxs c).foldl (fun t l => cp s1 t r l) t).hyper = t.hyper := fun t r =>
-    ⟨foldl_pres St.steps _ (fun _ _ => rfl) _ _, foldl_pres St.hyper _ (fun _ _ => rfl) _ _⟩
+    ⟨foldl_pres St.steps (fun t l => cp s1 t r l) (fun _ _ => rfl) _ _,
+     foldl_pres St.hyper (fun t l => cp s1 t r l) (fun _ _ => rfl) _ _⟩
   exact ⟨foldl_pres St.steps _ (fun t r => (h t r).1) _ _, foldl_pres St.hyper _ (fun t r => (h t r).2) _ _⟩
 
 theorem strip_val (o : Option Slot) : (strip o).map (·.val) = o.map (·.val) := by
